@@ -353,5 +353,16 @@ def proof_obligations(prop, rep, extra_trusted=None):
     return len(pairs), len(pairs) - len(badax), [n for n, _ in pairs]
 
 
+def norm_prefix(txt):
+    """lalrpop prefixes its own names with a run of underscores that does not occur in the grammar text
+    (`__`, or longer when the grammar itself contains `__`).  The readers of generated code are written
+    for `__`: map a longer prefix back to it (only at identifier starts; the prefix cannot occur in user
+    text by construction)."""
+    m = re.search(r"(?<![A-Za-z0-9_])(_{2,})lalrpop_util(?![A-Za-z0-9_])", txt)
+    if not m or m.group(1) == "__":
+        return txt
+    return re.sub(r"(?<![A-Za-z0-9_])" + m.group(1) + r"(?=[A-Za-z0-9])", "__", txt)
+
+
 def rng(extra=0):
     return random.Random(seed() * 1000003 + extra)
